@@ -22,6 +22,7 @@ def run(ctx: Ctx) -> list[Ob]:
     obs += r4.gather_contracts(ctx) + r4.output_contract(ctx)
     obs += r3.r3g(ctx)
     obs += r14.edge_multiplicity(ctx)
+    obs += r14.membership_in_mapping(ctx)
     obs += r3.r3l(ctx) + r3.r3m(ctx)
     obs += r11.r11i(ctx)
     obs += r12b.param_rewrites(ctx)
@@ -56,6 +57,7 @@ SPEC = PropSpec(
         " R11i: every semiring's cast returns a floating-point tensor at its own precision (itself, or converted with a dtype derived from x.dtype), never at torch.get_default_dtype(). R12b also for the parameter-graph rewrites the optimiser applies (log-softmax fusion, reduce-sum of an outer product as an einsum): same shape, same element order."
         " R3l: the offsets by which the address-book builders address fold j of input module k (offset[k] + j) are the exclusive prefix sums of the fold counts -- an accumulate / cumsum over num_folds with a leading 0, or a running variable updated additively; a running offset that is overwritten instead of accumulated is right for one or two input modules and reads another operand's folds from the third on. R3m: no order-changing operation (sorted, reversed, set, .sort()) is applied to a fold index in the modules that build and use address books: entry i of a fold index describes fold i, and the consumers read folds by position."
         ' R14s: successor lists keep one entry per edge -- topological_ordering / layerwise_topological_ordering count predecessors with multiplicity and decrement once per listed successor, so graph_nodes_outgoings appends once per occurrence (no set, no membership guard) and every explicit outcomings_fn is a node_outputs method or a lookup in such a mapping, never a membership filter: c * c has operands (c, c), and a successor listed once while its predecessors are counted twice never becomes ready (the pipeline then reports a cycle instead of compiling the operand first).'
+        ' R14t: a membership test `x in mapping` whose left side has, by the annotations of the function, the value type of the annotated dict and not its key type is always False (a match looked up among the modules): the selection bookkeeping it guards is skipped.'
     ),
     not_decided=(
         "numerical equality with the denoted function (the value computed by a correctly shaped and correctly ordered "
